@@ -43,7 +43,11 @@ func genCase(profile string) *rapid.Generator[Case] {
 		} else {
 			sets = []string{"core", "core", "mid", "listener", "query"}
 		}
-		c.Cfg.Gates = gateSets[rapid.SampledFrom(sets).Draw(t, "gates")]
+		gateName := rapid.SampledFrom(sets).Draw(t, "gates")
+		c.Cfg.Gates = gateSets[gateName]
+		// with the query gates the program leans towards query events, query requests and the
+		// clock: requests pile up behind a parked query listener while the event expires
+		queryHeavy := gateName == "query" || gateName == "listener"
 		hot := []string{"svc.s.1", "svc.s.2", "svc.t.a.1", "svc.t.a.2", "svc.r.1", "svc.m.1", "svc.m.w.a.x", "svc.t.a.1", "svc.m.fixed", "svc.m.q.1",
 			"svc.u.book.1", "svc.u.toy.1", "svc.m.a.b", "svc.m.c.b", "svc.r.1", "svc", "svc", "svc.m.n.a.1", "svc.m.n.a.2", "svc.x.a.1", "svc.x.a.2", "svc.m.n.k.1.a", "svc.m.n.k.2.a"}
 		genRID := rapid.OneOf(rapid.SampledFrom(hot), rapid.SampledFrom(hot), rapid.SampledFrom(allRIDs))
@@ -52,6 +56,16 @@ func genCase(profile string) *rapid.Generator[Case] {
 		}
 		genOp := func() Op {
 			k := rapid.IntRange(0, 99).Draw(t, "opk")
+			if queryHeavy {
+				switch q := rapid.IntRange(0, 9).Draw(t, "qheavy"); {
+				case q < 2:
+					return Op{K: "qreq", Pick: rapid.IntRange(0, 3).Draw(t, "pick")}
+				case q == 2:
+					return Op{K: "advance", D: rapid.SampledFrom([]int{999, 1000, 1001, 3000, 3001}).Draw(t, "d")}
+				case q == 3:
+					return Op{K: "with", RID: rapid.SampledFrom(hot).Draw(t, "rid"), QE: true}
+				}
+			}
 			switch {
 			case k < 48:
 				return Op{K: "release", Pick: rapid.IntRange(0, 7).Draw(t, "pick")}
